@@ -257,3 +257,46 @@ def corpus(seed, n, classes=None, nstmts=12):
         p["class"] = cl
         out.append(p)
     return out
+
+
+# ---------------------------------------------------------------------------------------------------------------------
+# every operation kind in every stack-depth regime: one program per (group of balanced snippets, base depth)
+SWEEP_KERNEL = "export.k0\n  push.5 mem_store.9 padw caller dropw\nend\nexport.k1.2\n  push.1 loc_store.0 loc_load.1 drop\nend\n"
+SWEEP_PROCS = ("proc.leaf\n  push.3 drop\nend\nproc.withloc.2\n  push.7 loc_store.1 loc_load.1 drop padw loc_storew.0 loc_loadw.0 dropw\nend\n"
+               "proc.nest\n  call.leaf exec.withloc syscall.k1\nend\nproc.deepuse\n  push.1 push.2 push.3 movup.2 drop drop drop\nend\n")
+SWEEP = {
+    "control": ["call.leaf", "syscall.k0", "procref.leaf dyncall dropw", "procref.leaf dynexec dropw", "exec.withloc", "call.withloc", "call.nest",
+                "syscall.k1", "call.deepuse", "procref.nest dyncall dropw",
+                "push.1 if.true call.leaf else push.2 drop end", "push.0 if.true push.2 drop else syscall.k0 end", "push.0 if.true push.2 drop end",
+                "push.1 while.true push.0 end", "push.0 while.true push.0 end", "push.1 push.1 push.0 movdn.2 while.true call.leaf end", "repeat.3 push.1 drop end",
+                "push.1 if.true push.1 while.true push.0 end else call.leaf end"],
+    "stack": ["push.0 drop", "push.9 drop", "dup.0 drop", "dup.7 drop", "dup.15 drop", "padw dropw", "dupw.3 dropw", "swap swap", "swap.15 swap.15", "swapw swapw", "swapw.3 swapw.3",
+              "swapdw swapdw", "movup.2 movdn.2", "movup.15 movdn.15", "movupw.3 movdnw.3", "push.1 cswap", "push.0 cswap", "push.1 cswapw", "push.0 cswapw",
+              "push.1 push.2 push.1 cdrop drop", "padw push.1 cdropw drop drop drop drop" if False else "padw padw push.1 cdropw dropw", "sdepth drop", "clk drop",
+              "push.1 push.2 push.3 push.4 push.5 push.6 push.7 push.8 dropw dropw", "dup.15 dup.15 dup.15 drop drop drop"],
+    "memory": ["push.5 mem_store.3", "mem_load.3 drop", "push.1.2.3.4 mem_storew.7 dropw", "padw mem_loadw.7 dropw", "push.4 push.100 mem_store", "push.100 mem_load drop",
+               "padw push.100 mem_loadw dropw", "push.1.2.3.4 push.101 mem_storew dropw", "push.7 padw padw padw mem_stream dropw dropw dropw drop",
+               "push.4294967295 mem_load drop", "push.8 mem_store.4294967295", "push.1.2.3.4 push.5.6.7.8 push.9.10.11.12 hperm dropw dropw dropw",
+               "push.1.2.3.4 push.5.6.7.8 hmerge dropw", "push.1.2.3.4 hash dropw", "locaddr_free"],
+    "arith": ["push.3 push.4 add drop", "push.3 push.4 mul drop", "push.3 neg drop", "push.3 inv drop", "push.3 push.3 eq drop", "push.0 eq.0 drop", "push.1 push.0 and drop",
+              "push.1 push.0 or drop", "push.1 not drop", "push.5 push.3 exp drop", "push.3 exp.5 drop", "push.7 pow2 drop", "push.1.2 push.3.4 ext2mul drop drop", "push.3 push.9 ext2inv drop drop",
+              "push.4294967295 push.1 u32overflowing_add drop drop", "push.5 push.6 push.7 u32overflowing_add3 drop drop", "push.1 push.2 u32overflowing_sub drop drop",
+              "push.4294967295 push.4294967295 u32overflowing_mul drop drop", "push.3 push.4 push.5 u32overflowing_madd drop drop", "push.17 push.5 u32divmod drop drop",
+              "push.12 push.10 u32and drop", "push.12 push.10 u32xor drop", "push.12 push.10 u32or drop", "push.5 u32not drop", "push.18446744069414584320 u32split drop drop",
+              "push.5 push.6 u32assert2 drop drop", "push.1 u32shl.31 drop", "push.8 u32shr.3 drop", "push.8 u32rotl.5 drop", "push.8 u32popcnt drop", "push.8 u32clz drop",
+              "push.8 u32ctz drop", "push.9 u32clo drop", "push.9 u32cto drop", "push.5 push.6 u32lt drop", "push.5 push.6 u32min drop", "push.5 push.6 lt drop", "push.5 push.6 gte drop",
+              "push.9 is_odd drop", "push.9 ilog2 drop", "push.1 assert", "push.0 assertz", "push.2 push.2 assert_eq", "push.1.2.3.4 push.1.2.3.4 eqw drop dropw dropw"],
+}
+
+
+def depth_sweep(depths=(0, 17, 18, 24), groups=None, rng_seed=0):
+    """programs executing every snippet of a group at base stack depth d (each snippet is stack-neutral)"""
+    r = random.Random(rng_seed)
+    out = []
+    for g in (groups or list(SWEEP)):
+        for d in depths:
+            body = [s for s in SWEEP[g] if s != "locaddr_free"]
+            src = SWEEP_PROCS + "begin\n  " + "\n  ".join(body) + "\nend\n"
+            inputs = [r.choice(BOUND_F) if r.random() < 0.5 else r.randrange(P) for _ in range(d)]
+            out.append({"src": src, "kernel": SWEEP_KERNEL, "inputs": inputs, "adv": [], "class": "sweep-%s-d%d" % (g, max(d, 16))})
+    return out
